@@ -129,7 +129,17 @@ def compatible_cfg(item, cfg):
     tr = derived_traits(item)
     if cfg == 'zeroize' and 'ZeroizeOnDrop' in tr and 'Zeroize' not in tr:
         return False          # without `zeroize-on-drop` the Drop impl calls Zeroize::zeroize(self): needs the user's Zeroize impl
+    if cfg in ('zeroize', 'zod', 'safe-zod') and kf_dropcast(item):
+        return False          # known finding KF-dropcast (one probe of it is compiled on every run by gen/kfprobe.py)
     return True
+
+
+def kf_dropcast(item):
+    """Known finding KF-dropcast: a field-less enum that derives `ZeroizeOnDrop` (hence implements `Drop`) and compares
+    discriminants through the `Clone` shortcut `Clone::clone(self) as isize`, which rustc refuses for `Drop` types."""
+    tr = derived_traits(item)
+    return item.kind == 'enum' and all(not v.fields for v in item.variants) and 'ZeroizeOnDrop' in tr and \
+        'Clone' in tr and bool({'PartialOrd', 'Ord'} & set(tr))
 
 
 def type_args(item):
